@@ -21,7 +21,15 @@ ASSUMPTIONS = ['mutation of user dictionaries is logged as advisory unless it ch
 MIN_NONVACUOUS = {'quick': {'purity.same_problem_as_fresh': 250, 'purity.probe_does_not_raise': 250},
                   'thorough': {'purity.same_problem_as_fresh': 2000}}
 OPS = ['setup_other', 'setup_other', 'costs_only', 'set_timegrid_none', 'optimize_extract', 'to_json', 'split', 'second_portfolio', 'structured_reuse',
-       'asset_alone', 'failing_call', 'same_grid_other_prices', 'setup_other_tz']
+       'asset_alone', 'failing_call', 'same_grid_other_prices', 'setup_other_tz', 'injected_failure', 'injected_failure']
+_FP = {}
+
+
+def failpoint():
+    if 'fp' not in _FP:
+        from ..failpoint import Failpoint
+        _FP['fp'] = Failpoint(env.REPO)
+    return _FP['fp']
 
 
 def variant_forms(rng, spec):
@@ -136,6 +144,36 @@ def run_case(rng, tier, case):
                 elif op == 'asset_alone':
                     for a in P.assets[:3]:
                         a.setup_optim_problem(pr2, tg2)
+                elif op == 'injected_failure':
+                    # a set-up (other grid, or the structured wrapper) aborted by an exception raised at a random executed line of eaopack
+                    fp = failpoint()
+                    if fp.available:
+                        which = gen.pick(rng, ['portfolio', 'portfolio', 'structured', 'split'])
+                        def target():
+                            if which == 'structured':
+                                sub = [a for a in P.assets if type(a).__name__ in ('SimpleContract', 'Contract', 'Storage', 'Transport')][:3]
+                                if sub:
+                                    s_, e_, _k = gen.gen_window(rng, g2, kinds=['inside', 'straddle_start', 'straddle_end'])
+                                    StructuredAsset(name='wrap', portfolio=Portfolio(sub), nodes=[sub[0].nodes[0]], start=None if s_ is None else pd.Timestamp(s_).to_pydatetime(),
+                                                    end=None if e_ is None else pd.Timestamp(e_).to_pydatetime()).setup_optim_problem(pr2, tg2)
+                            elif which == 'split' and not g2['freq'].endswith('d'):
+                                P.setup_split_optim_problem(pr2, tg2, interval_size='6h')
+                            else:
+                                P.setup_optim_problem(pr2, tg2)
+                        # number of lines the call executes, measured on throw-away objects built from the same spec
+                        import copy as _c
+                        b_tmp = build(spec)
+                        P_keep = P
+                        P = b_tmp.portfolio
+                        try:
+                            n_lines = fp.count(target)
+                        except Exception:
+                            n_lines = 0
+                        P = P_keep
+                        if n_lines > 3:
+                            where = fp.inject(target, int(rng.integers(1, n_lines)))
+                            outcome = 'injected fault at ' + str(where)
+                            case.event('injected_faults')
                 elif op == 'failing_call':
                     bad = dict(pr2); bad.pop(keys[0], None)
                     try:
